@@ -90,7 +90,7 @@ def menu_entry(k):
         m["orbital_rotation"] = rng.choice([True, False])
         m["do_sr"] = rng.choice([True, True, False])
         m["n_blocks"] = rng.choice([1, 2, 3])
-        m["n_eql"] = rng.choice([1, 2])
+        m["n_eql"] = rng.choice([0, 1, 2])
         m["n_ene_blocks_eql"] = rng.choice([1, 2])
         m["n_sr_blocks_eql"] = rng.choice([1, 2])
     return m
@@ -118,6 +118,7 @@ def gen_cfg(seed, index, tier):
             else:
                 faults.append(dict(step=rng.randrange(nsteps * 2), walker=rng.randrange(m["n_walkers"]), comp=rng.randrange(m["nchol"]), value=rng.choice([8.0, 30.0, 1e3, 1e6]), mode=0))
     m["faults"] = faults
+    m["user_init_walkers"] = m["kind"] == "driver" and rng.random() < 0.25
     m["sched"] = {"policy": rng.choice(["random", "sticky", "straggler", "reverse"]), "straggler": rng.randrange(3),
                   "p_rendezvous": rng.choice([0.0, 0.5, 1.0]), "p_clock_jump": rng.choice([0.0, 0.1])}
     return m
@@ -273,8 +274,23 @@ def _execute_driver(cfg, ctx, s, smp, faults):
     site = "driver.afqmc"
     log = EventLog()
     fb = {r: faults for r in range(R)} if faults else None
+    iw = None
+    if cfg.get("user_init_walkers"):
+        # walkers supplied by the caller: complex, not orthonormal, near the trial's natural orbitals
+        import jax.numpy as jnp
+
+        rs = np.random.RandomState((cfg["ham_seed"] + 3) % (2**32 - 1))
+        base = s.trial.get_init_walkers(s.wave_data, cfg["n_walkers"], restricted=(cfg["wt"] == "restricted"))
+        noisy = lambda b: jnp.array(np.asarray(b) + 0.15 * (rs.normal(size=np.asarray(b).shape) + 1j * rs.normal(size=np.asarray(b).shape)))  # noqa: E731
+        iw = noisy(base) if cfg["wt"] == "restricted" else [noisy(base[0]), noisy(base[1])]
+        ctx.probe("driver_runs_with_user_walkers", 1)
     try:
-        out = lab.run_driver_world(s, smp, opts, R, ctx.decider, sched=cfg["sched"], log=log, faults_by_rank=fb)
+        out = lab.run_driver_world(s, smp, opts, R, ctx.decider, sched=cfg["sched"], log=log, faults_by_rank=fb, init_walkers=iw)
+    except ValueError as e:
+        if "Initial overlaps are zero" in str(e):
+            ctx.count("precondition_start_overlap")
+            return {"digest": None, "nontrivial": False}
+        raise
     except Deadlock as e:
         ctx.violation("coherence.driver_deadlock", site, {"trigger": {"entry": "driver", "wt": cfg["wt"]}, "error": str(e)})
         return {"digest": "deadlock", "nontrivial": False}
